@@ -49,6 +49,7 @@ type world struct {
 	fracs  [][]doc
 	sealed []bool
 	big    bool
+	huge   int // 0 = no; 1..4 = values beyond the int64 range (see hugePools)
 }
 
 var groupNames = map[string][]string{
@@ -64,6 +65,29 @@ var mapping = seq.Mapping{
 	"h": seq.NewSingleType(seq.TokenizerTypeKeyword, "", 0),
 	"v": seq.NewSingleType(seq.TokenizerTypeKeyword, "", 0),
 	"w": seq.NewSingleType(seq.TokenizerTypeKeyword, "", 0),
+}
+
+// Values beyond +-2^63 (uint64 ids, "1e19", ...): NewSamplesContainers starts Min/Max at +-2^63, which is
+// not neutral for them. Pools 1..3 are exactly representable doubles of the family 2^19 * integer
+// (j*10^19, j*2^64, +-2^63), so that every partial sum of <= 60 of them is exact (bit-exact stream);
+// pool 4 mixes them with 1e300 and small values (tolerant stream; min/max/quantiles stay exact).
+var hugePos = []string{"1e19", "2e19", "3E+19", "10000000000000000000", "18446744073709551616", "1.8446744073709552e19",
+	"3.6893488147419103e19", "9223372036854775808", "9.223372036854775808e18", "18446744073709551615"}
+var hugeNeg = []string{"-1e19", "-2e19", "-3e19", "-18446744073709551616", "-9223372036854775808", "-9.223372036854775808E18",
+	"-3.6893488147419103e19"}
+var hugeMixed = []string{"1e300", "-1e300", "1e19", "-1e19", "9.3e18", "-9.3e18", "1.5e19", "5", "-3.5", "0", "9223372036854775807",
+	"12345678901234567890"}
+
+func hugePool(kind int) []string {
+	switch kind {
+	case 1:
+		return hugePos
+	case 2:
+		return hugeNeg
+	case 3:
+		return append(append([]string{}, hugePos...), hugeNeg...)
+	}
+	return hugeMixed
 }
 
 // exactValue renders k/16 as a decimal token in a random style (plain, exponent, sign, zeros).
@@ -156,9 +180,19 @@ func genWorld(seed uint64, idx int, tier string) *world {
 			nd = 8096 - r.Range(1, 50)
 		}
 	}
+	if idx%10 == 7 {
+		w.huge = (idx/10)%4 + 1
+		w.exact = w.huge != 4
+	}
 	// value pool (few distinct tokens in a big world)
 	pool := make([]string, 0)
 	np := r.Range(2, 25)
+	if w.huge > 0 {
+		hp := append([]string{}, hugePool(w.huge)...)
+		rng.Shuffle(r, hp)
+		pool = hp[:r.Range(2, len(hp))]
+		np = 0
+	}
 	for i := 0; i < np; i++ {
 		if w.exact {
 			lim := int64(1 << uint(r.Range(3, 16)))
@@ -794,6 +828,9 @@ func emitAgg(w *world, s searchSpec, si, ti, ai int, a aggSpec, t *tree, qpr *se
 			class += "-minmax-only"
 		}
 	}
+	if w.huge > 0 && a.field != "" {
+		class += "-huge"
+	}
 	if !w.exact {
 		class += "-tolerant"
 	}
@@ -905,8 +942,8 @@ func emitAgg(w *world, s searchSpec, si, ti, ai int, a aggSpec, t *tree, qpr *se
 	for i, q := range a.quants {
 		qs[i] = fmt.Sprintf("(%d, %d)", q[0], q[1])
 	}
-	qcoq := fmt.Sprintf("(Query %d %d %s %s %d [%s]%%N %d)", s.from, s.to, funcCoq[a.fn], casefile.Bool(a.group != "" && a.field != ""),
-		a.interval, strings.Join(qs, "; "), id["_not_exists"])
+	qcoq := fmt.Sprintf("(Query %d %d %s %s %d [%s]%%N %d %d)", s.from, s.to, funcCoq[a.fn], casefile.Bool(a.group != "" && a.field != ""),
+		a.interval, strings.Join(qs, "; "), id["_not_exists"], sc.scale)
 	// bins
 	type binOut struct {
 		mid  uint64
@@ -1017,6 +1054,9 @@ func runWorld(seed uint64, idx int, tier string, nsearch int, only func(search, 
 		kind = "big"
 	}
 	res.counts = append(res.counts, fmt.Sprintf("world:%s:fractions=%d", kind, len(fracs)))
+	if w.huge > 0 {
+		res.counts = append(res.counts, fmt.Sprintf("world:values-beyond-int64:kind=%d", w.huge))
+	}
 	if !w.sealed[len(w.sealed)-1] {
 		res.counts = append(res.counts, "world:last-fraction-active")
 	}
